@@ -1,0 +1,100 @@
+//go:build verif
+
+package mavl
+
+import (
+	"sync/atomic"
+)
+
+// Verification hooks (build tag verif only) used by the C04/C05 runtime monitors.
+// Add-only: nothing here is referenced by production code.
+
+// VerifBLeafIndexEntry is one decoded per-leaf version index record.
+type VerifBLeafIndexEntry struct {
+	Key    []byte
+	Height int64
+	Hash   []byte
+	Old    bool // second level (..mok..) record
+}
+
+// VerifBResetGlobals waits for a running background prune and puts every process global of the
+// package back to its start-of-process value, so that one process can replay independent
+// histories (a real restart does the same by construction).
+func VerifBResetGlobals() {
+	wg.Wait()
+	heightMtx.Lock()
+	maxBlockHeight = 0
+	heightMtx.Unlock()
+	memTree = nil
+	tkCloseCache = nil
+	quit = false
+	secLvlPruningH = 0
+	atomic.StoreInt32(&pruningState, pruningStateEnd)
+}
+
+// VerifBWaitPrune blocks until the background prune goroutines started by Tree.Save returned.
+func VerifBWaitPrune() { wg.Wait() }
+
+// VerifBIsPruning exports the prune state flag.
+func VerifBIsPruning() bool { return isPruning() }
+
+// VerifBMaxBlockHeight exports the cached highest committed height.
+func VerifBMaxBlockHeight() int64 {
+	heightMtx.Lock()
+	defer heightMtx.Unlock()
+	return maxBlockHeight
+}
+
+// VerifBLeafIndexPrefixes returns the two DB key prefixes of the leaf version index.
+func VerifBLeafIndexPrefixes() (first, second []byte) {
+	return []byte(leafKeyCountPrefix), []byte(oldLeafKeyCountPrefix)
+}
+
+// VerifBParseLeafIndexKey decodes a leaf version index DB key with the package's own parsers.
+func VerifBParseLeafIndexKey(dbKey []byte, old bool) (*VerifBLeafIndexEntry, error) {
+	var (
+		key    []byte
+		height int
+		hash   []byte
+		err    error
+	)
+	if old {
+		key, height, hash, err = getKeyHeightFromOldLeafCountKey(dbKey)
+	} else {
+		key, height, hash, err = getKeyHeightFromLeafCountKey(dbKey)
+	}
+	if err != nil {
+		return nil, err
+	}
+	return &VerifBLeafIndexEntry{Key: append([]byte{}, key...), Height: int64(height), Hash: append([]byte{}, hash...), Old: old}, nil
+}
+
+// VerifBRootHashPrefix returns the DB key prefix of the per-height root records of one height.
+func VerifBRootHashPrefix(height int64) []byte { return genRootHashPrefix(height) }
+
+// VerifBRootFromKey extracts the root hash of a per-height root record key.
+func VerifBRootFromKey(k []byte) ([]byte, error) {
+	h, err := getRootHash(k)
+	if err != nil {
+		return nil, err
+	}
+	return append([]byte{}, h...), nil
+}
+
+// VerifBSetPruneGate installs a callback that the background prune goroutine started by Tree.Save
+// runs before it begins (nil removes it). The C05 monitor uses it to snapshot the DB between the
+// commit and the prune it triggered, and to count the prune runs the store started by itself.
+func VerifBSetPruneGate(f func(curHeight int64)) {
+	if f == nil {
+		f = func(int64) {}
+	}
+	verifBPruneGate.Store(f)
+}
+
+var verifBPruneGate atomic.Value // func(int64)
+
+func verifPruneGate(curHeight int64) {
+	if f, ok := verifBPruneGate.Load().(func(int64)); ok && f != nil {
+		f(curHeight)
+	}
+}
